@@ -362,4 +362,4 @@ def _worker(ctx, job):
 
 def run(ctx):
     quick = ctx.tier == "quick"
-    ctx.parallel(_worker, [(130, 8)] * 16 if quick else [(3200, 20)] * 16)
+    ctx.parallel(_worker, [(130, 8)] * 16 if quick else [(12000, 20)] * 16)
